@@ -589,6 +589,26 @@ theorem segmentation_track_typed (isnan : α → Bool) (le? : α → α → Exce
   · exact create_size t out
   · exact create_virt t out
 
+/-- T11 (numbers and `ObsTime` objects): the same for the values a track actually hands over, the hypothesis being
+that in every row read from the track each non-NaN tested value is of the kind of the threshold of its position
+(e.g. `afs_input = ["speed", "timestamp"]`, `thresholds_max = [5.0, ObsTime(…)]`). -/
+theorem segmentation_track_val (andMode : Bool) (t : FTrack Val) (afs : Arg String) (out : String) (ths : Arg Val)
+    (hres : reserved.contains out = false) (hsize : t.size ≠ 0) (hvirt : t.virt.lookup out = none)
+    (hknown : ∀ a ∈ afs.listify, ((t.create out).get a).isSome = true)
+    (hlen : afs.listify.length ≤ ths.listify.length)
+    (hk : ∀ rows, (t.create out).rows afs.listify = some rows → ∀ r ∈ rows, ∀ (i : Nat) (v th : Val),
+      r[i]? = some (some v) → ths.listify[i]? = some th → Val.sameKind v th = true) :
+    ∃ rows bs t', (t.create out).rows afs.listify = some rows ∧ rows.length = t.size ∧
+      markersG Val.isnan Val.le? Val.fmax andMode ths.listify rows = .ok bs ∧
+      rows.map (markerG Val.isnan Val.le? Val.fmax andMode ths.listify) = bs.map Except.ok ∧
+      segTrackG Val.isnan Val.le? Val.fmax andMode t afs out ths = .ok t' ∧
+      t'.get out = some (bs.map markVal) ∧
+      (∀ name, name ≠ out → t'.get name = t.get name) ∧
+      t'.feats.map Prod.fst = (t.create out).feats.map Prod.fst ∧
+      t'.size = t.size ∧ t'.virt = t.virt :=
+  segmentation_track_typed Val.isnan Val.le? Val.gt Val.fmax andMode t afs out ths hres hsize hvirt hknown hlen
+    (fun rows hr r hmem => Val.typed _ _ (hk rows hr r hmem))
+
 /-- T11 (no memory, any kind of value): what an already existing output feature held before the call has no
 influence on the result, exceptions included. -/
 theorem segmentation_history_typed (isnan : α → Bool) (le? : α → α → Except String Bool) (fmax : α) (andMode : Bool)
